@@ -482,6 +482,37 @@ func (g *c12Gen) chain() jast.Node {
 		}
 		return &jast.Var{Name: "f"}
 	}
+	if r.Intn(5) == 0 {
+		// one composed base function extended several times: every extension is
+		// a function of its own (f ~> g must not disturb f or other extensions of f)
+		g.tags["chain:shared-base-extended-twice"] = true
+		pure := func() jast.Node {
+			switch r.Intn(4) {
+			case 0:
+				return &jast.Lambda{Params: []string{"x"}, Body: &jast.Bin{Op: "*", L: &jast.Var{Name: "x"}, R: &jast.Num{V: float64(r.Range(2, 3))}}}
+			case 1:
+				return &jast.Lambda{Params: []string{"x"}, Body: &jast.Bin{Op: "+", L: &jast.Var{Name: "x"}, R: &jast.Num{V: float64(r.Range(1, 4))}}}
+			case 2:
+				return &jast.Lambda{Params: []string{"x"}, Body: &jast.Bin{Op: "-", L: &jast.Num{V: 0}, R: &jast.Var{Name: "x"}}}
+			}
+			return &jast.Var{Name: "abs"}
+		}
+		var base jast.Node = pure()
+		for k, n := 0, r.Range(1, 8); k < n; k++ {
+			base = &jast.Apply{L: base, R: pure()}
+		}
+		b := &jast.Block{Exprs: []jast.Node{&jast.Assign{Name: "base", Val: base}}}
+		res := &jast.Array{}
+		for k, n := 0, r.Range(2, 3); k < n; k++ {
+			nm := fmt.Sprintf("ext%d", k)
+			b.Exprs = append(b.Exprs, &jast.Assign{Name: nm, Val: &jast.Apply{L: &jast.Var{Name: "base"}, R: pure()}})
+			res.Items = append(res.Items, &jast.Call{Fn: &jast.Var{Name: nm}, Args: []jast.Node{&jast.Num{V: float64(r.Range(1, 5))}}})
+		}
+		res.Items = append(res.Items, &jast.Call{Fn: &jast.Var{Name: "base"}, Args: []jast.Node{&jast.Num{V: 2}}})
+		b.Exprs = append(b.Exprs, res)
+		g.tags["chain"] = true
+		return b
+	}
 	var e jast.Node
 	switch r.Intn(5) {
 	case 0:
